@@ -259,6 +259,27 @@ Definition list_modules (available : list bytes) : list bytes := fold_right inse
 (* save_scanner: refuses to overwrite *)
 Definition save_exit (destination_exists : bool) : N := if destination_exists then 1 else 0.
 
+(* ------------------------------------------------------------------ Input::new *)
+Inductive input_kind := InFiles | InDirectory | InFile | InProcess (pid : N).
+
+(* u32::from_str: optional '+', at least one digit, nothing else, no overflow *)
+Definition parse_u32 (s : bytes) : option N :=
+  let body := match s with 43 :: r => r | _ => s end in
+  match body with
+  | [] => None
+  | _ => match digits_value 0 body with
+         | Some v => if (v <=? 4294967295)%Z then Some (Z.to_N v) else None
+         | None => None
+         end
+  end.
+
+(* same as YARA: the argument is a pid only if no file has this name *)
+Definition classify_input (scan_list is_dir path_exists : bool) (arg : bytes) : input_kind :=
+  if scan_list then InFiles
+  else if is_dir then InDirectory
+  else if path_exists then InFile
+  else match parse_u32 arg with Some pid => InProcess pid | None => InFile end.
+
 (* ------------------------------------------------------------------ library events *)
 Inductive event :=
 | EvRule (matched : bool) (info : rule_info) (ms : list (bytes * list smatch))   (* RuleMatch / RuleNoMatch *)
